@@ -5,6 +5,12 @@ ROOT = os.path.dirname(os.path.dirname(os.path.abspath(__file__)))
 TRUST = ("TLC 1.8.0 + CommunityModules; the harness's independent raw-socket codec and recording handlers; bounds as in the "
          "spec/mc/*.cfg named in the evidence; default cargo features plus vhost-kern/vdpa/net/vsock (xen, postcopy excluded)")
 CLAIMS = {
+ "C12": ("model_checking", "2/C12",
+   "VringConc.tla (worker loop x daemon thread micro-steps x guest kicks over level-triggered epoll/eventfd) is model-checked for all "
+   "interleavings of six scenarios: 'no lost kick' and 'worker survives' hold on the model, 'no dispatch after the reply' is refuted "
+   "(check-then-act window, recorded as known findings). Every complete schedule is driven through the instrumented hold points of a "
+   "real daemon and the recorded events are validated by TLC against the two clauses of the property.",
+   "TLA+ model checking of all interleavings (TLC) + schedule replay over hold points + TLC trace validation"),
  "C11": ("model_checking", "2/C11",
    "VringLifecycle.tla (ring started/enabled/kick/pending per the protocol) is model-checked (every (state, letter) transition of the "
    "2-ring model, all 1-ring histories to depth 5/6); each is replayed on a real VhostUserDaemon over a real socket; a barrier listener "
